@@ -644,7 +644,7 @@ def _running_total(cx, f, g, acc, addsite, rets, nolimit, unc0, fits, over):
     okr, _ = g.after_edge_never_reaches(lambda lits: any(over(l) for l in lits), lambda b: b in adds)
     cx.check(okr, "accounting:refused", "a refused proposal is not charged", addsite)
     tb = [b for lits, v, b in rets if v == ("bool", True) and not any(nolimit(l) for l in lits)]
-    okc = bool(tb) and all(g.dominated_by_block((b, "term"), lambda bb: bb in adds, assume=[("is", l[1], False) for lits, v, _ in rets for l in lits if nolimit(l)][:1]) for b in set(tb))
+    okc = bool(tb) and all(b in adds or g.dominated_by_block((b, "term"), lambda bb: bb in adds, assume=[("is", l[1], False) for lits, v, _ in rets for l in lits if nolimit(l)][:1]) for b in set(tb))
     cx.check(okc, "accounting", "every admitted (limited) proposal is added to uncommitted_size")
     v = write_value(cx, addsite)
     cx.check(v[0] == "bin" and v[1] == "Add" and any(is_f(x, "UncommittedState.uncommitted_size") for x in v[2:4]), "accounting:value", "uncommitted_size += the running total just admitted (found %s)" % show(v)[:120], addsite)
